@@ -1,6 +1,7 @@
 package main
 
 import (
+	"go/token"
 	"go/types"
 	"strings"
 
@@ -48,6 +49,30 @@ func propC05(c *Check) {
 		}
 	})
 	c.Floor(3)
+	// the encoder's panic bounds are guarded inside Validate itself, before the first encoding
+	// (the reviewed table entries for EncodeTransaction / EncodeInput cite exactly these guards)
+	{
+		w := c.W
+		tx := Path(Param("ver"), "")
+		_ = tx
+		enc := callInstrs(findCalls(f, "(*common.VersionedTransaction).PayloadMarshal"))
+		enc = append(enc, callInstrs(findCalls(f, "(*common.VersionedTransaction).PayloadHash"))...)
+		lim := w.ConstNamed("common", "SliceCountLimit")
+		c.MustPass(f, Gate{Name: "len(tx.Inputs) > SliceCountLimit => reject", RejectOnTrue: true, Cond: Bin(token.GTR, Len(Path(Param("ver"), "Inputs")), lim)}, enc, "the first payload encoding (EncodeTransaction panics above the limit)")
+		c.MustPass(f, Gate{Name: "len(tx.Outputs) > SliceCountLimit => reject", RejectOnTrue: true, Cond: Bin(token.GTR, Len(Path(Param("ver"), "Outputs")), lim)}, enc, "the first payload encoding")
+		c.MustPass(f, Gate{Name: "len(tx.References) > SliceCountLimit => reject", RejectOnTrue: true, Cond: Bin(token.GTR, Len(Path(Param("ver"), "References")), lim)}, enc, "the first payload encoding")
+		c.MustPass(f, Gate{Name: "len(tx.Extra) > tx.GetExtraLimit() => reject", RejectOnTrue: true, Cond: Bin(token.GTR, Len(Path(Param("ver"), "Extra")), Call("(*common.SignedTransaction).GetExtraLimit"))}, enc, "the first payload encoding")
+		if lp := c.RangeLoop(f, "inputs#1/1", Path(Param("ver"), "Inputs")); lp != nil {
+			c.LoopGate(f, lp, Gate{Name: "in.Index > InputIndexLimit => reject", RejectOnTrue: true, Cond: Bin(token.GTR, Path(Param("ver"), "Inputs.[].Index"), w.ConstNamed("common", "InputIndexLimit"))}, "EncodeInput panics above the limit")
+			okd := true
+			for _, e := range enc {
+				if !lp.Header.Dominates(e.Block()) {
+					okd = false
+				}
+			}
+			c.Require(okd && len(enc) >= 2, "order", shortName(f)+"|index scan before encoding", "the input-index scan precedes every payload encoding", "an encoding is reachable before the scan")
+		}
+	}
 	// context: unrecovered callers and unvalidated queueing
 	for _, n := range []string{"(*kernel.Node).popAndProcessCacheQueue", "(*kernel.Node).validateSnapshotTransaction"} {
 		if g := c.F(n); g != nil {
